@@ -72,12 +72,21 @@ class Ctx(ChainContext):
         return 2000
 
 
+SHARE = [False]      # per case: policies of one bundle whose literals are equal hold THE SAME Asset object
+
+
 def mk_ma(lit):
     ma = MultiAsset()
+    seen = {}
     for p, names in lit:
-        a = Asset()
-        for n, q in names:
-            a[AssetName(bytes.fromhex(n))] = q
+        key = json.dumps(names)
+        if SHARE[0] and key in seen:
+            a = seen[key]
+        else:
+            a = Asset()
+            for n, q in names:
+                a[AssetName(bytes.fromhex(n))] = q
+            seen[key] = a
         ma[pol(p)] = a
     return ma
 
@@ -95,6 +104,7 @@ KINDS = {'InsufficientUTxOBalanceException', 'MaxInputCountExceededException', '
 
 
 def handler(case, payload):
+    SHARE[0] = bool(case.get('share'))
     c = case['ctx']
     ctx = long_lived(Ctx, c['a'], c['b'], c['cpb'], c['ex'])
     pool = [wire(UTxO(TransactionInput.from_primitive([bytes([7]) * 32, i]), TransactionOutput(ADDR, Value(v[0], mk_ma(v[1])))))
